@@ -76,7 +76,7 @@ func c05RecurCheck(c c06Case, a *advWorld, stop time.Duration, opens []time.Dura
 	var at time.Duration
 	for _, e := range c.Events {
 		at += e.Gap
-		if e.Multicast && !e.Reinit && !e.WriteErr && !e.FwdFlip && e.UFail == "" && at >= opens[last]-time.Millisecond {
+		if e.Multicast && !e.Reinit && !e.WriteErr && !e.FwdFlip && !e.WatchClose && e.UFail == "" && at >= opens[last]-time.Millisecond {
 			nsol++
 		}
 	}
@@ -113,7 +113,7 @@ func c05RecurRun(t *testing.T, c c06Case) (steps int, log string, vs [][2]string
 func TestVerifC05Recur(t *testing.T) {
 	r := ev.Begin("C05", "recur")
 	defer r.End(t)
-	r.Rule = "histories = all sequences of <=K events over {link change (tear-down + re-initialisation), transient failure of the next scheduled multicast transmission, solicitation from ::, unicast solicitation} x gap {0, 100ms, 3.1s, 6s}, injected into the real Advertiser (min=max in {4s, 9s, 30s}; 30s: histories <=2 in the quick tier) under the virtual clock, followed by five quiet intervals; oracle: Run is still running at the stop and, on the last connection, consecutive multicast RAs are never more than max+3s apart up to the stop, the first three waits on a re-initialised interface <=16s, and never more multicast RAs than the initial one + the unsolicited requests that fit (waits >= min) + the solicitations from ::; states = histories executed; non-trivial = history has >=1 event; distinct = distinct history"
+	r.Rule = "histories = all sequences of <=K events over {link change (tear-down + re-initialisation), transient failure of the next scheduled multicast transmission, solicitation from ::, unicast solicitation, the link-state watcher halts (its channel is closed; later link changes cannot arrive)} x gap {0, 100ms, 3.1s, 6s}, injected into the real Advertiser (min=max in {4s, 9s, 30s}; 30s: histories <=2 in the quick tier) under the virtual clock, followed by five quiet intervals; oracle: Run is still running at the stop and, on the last connection, consecutive multicast RAs are never more than max+3s apart up to the stop, the first three waits on a re-initialised interface <=16s, and never more multicast RAs than the initial one + the unsolicited requests that fit (waits >= min) + the solicitations from ::; states = histories executed; non-trivial = history has >=1 event; distinct = distinct history"
 	r.Assumptions = []string{"canonical goroutine schedule per history", "min=max so that the wait is not a random variable"}
 	if r.Replay != nil {
 		var c c06Case
@@ -134,7 +134,7 @@ func TestVerifC05Recur(t *testing.T) {
 		K = 4
 	}
 	gaps := []time.Duration{0, 100 * time.Millisecond, 3100 * time.Millisecond, 6 * time.Second}
-	n := 4 * len(gaps)
+	n := 5 * len(gaps)
 	idx := 0
 	enum.Sequences(n, K, func(seq []int) bool {
 		idx++
@@ -159,6 +159,8 @@ func TestVerifC05Recur(t *testing.T) {
 					e.WriteErr = true
 				case 2:
 					e.Multicast = true
+				case 4:
+					e.WatchClose = true
 				}
 				c.Events = append(c.Events, e)
 			}
